@@ -2,8 +2,11 @@
 from vlib.framework import PUnit, LUnit, BUnit
 from bounded import b_genparams as B
 from contracts import map_to_molecule as MM
+from contracts import exclusions as EX
 
-P_UNITS = [PUnit("tag-exclusions", [MM.TAG_EXCL], MM.REG)]
+P_UNITS = [PUnit("tag-exclusions", [MM.TAG_EXCL], MM.REG),
+           PUnit("expand-exclusions", EX.CONTRACTS, EX.REG),
+           LUnit("c14-statement-from-clauses", EX.lemma_c14_statement)]
 
 
 def build(tier, seed):
